@@ -302,7 +302,11 @@ def ty1 (o : Op1) (x : Ty) : Option Ty :=
   -- mat.rs:273  impl<Src,Dst> Mat4x4<RealToReal<3,Src,Dst>> { fn inverse(&self) -> Mat4x4<RealToReal<3,Dst,Src>> }
   | .inverse => match x with | .mat 4 (.r2r 3 s d) => some (.mat 4 (.r2r 3 d s)) | _ => none
   -- mat.rs:104  impl Matrix<[[Sc;N];N], RealToReal<DIM,S,D>> { fn transpose(self) -> …RealToReal<DIM,D,S> }
-  | .transpose => match x with | .mat n (.r2r k s d) => some (.mat n (.r2r k d s)) | _ => none
+  -- mat.rs:118    const { assert!(N >= DIM, "map dimension >= matrix dimension") }  (post-monomorphisation error)
+  | .transpose =>
+    match x with
+    | .mat n (.r2r k s d) => if k ≤ n then some (.mat n (.r2r k d s)) else none
+    | _ => none
   | .determinant => match x with | .mat 4 (.r2r 3 _ _) => some f32 | _ => none   -- mat.rs:261
   -- mat.rs:85-102  where Map: LinearMap: row_vec -> Vector<[Sc;N], Map::Source>, col_vec -> Vector<[Sc;M], Map::Dest>
   | .rowVec => match x with | .mat n m => m.source?.map (.vec .f32 n) | _ => none
@@ -542,9 +546,15 @@ def Op2.additive : Op2 → Bool
 
 def mis1 (o : Op1) (x : Ty) : Option Misuse :=
   match o with
-  | .inverse | .transpose | .determinant =>
+  | .inverse | .determinant =>
     match x with
     | .mat _ (.r2p _) => some .projAsAffine
+    | _ => none
+  | .transpose =>
+    match x with
+    | .mat _ (.r2p _) => some .projAsAffine
+    -- an n×n array cannot hold a map of a space of more than n dimensions
+    | .mat n (.r2r k _ _) => if n < k then some .mixDim else none
     | _ => none
   | .degs | .rads | .turns | .asin | .acos => if x.isAngle then some .angleUnit else none
   | .toRads | .toDegs | .toTurns => if x.isScalar then some .angleUnit else none
